@@ -507,6 +507,7 @@ var minusOneReviewed = map[string]string{
 	"geom.Distance":     "record IDs are never zero: points are inserted as +(i+1) and segments as -(i+1); the segment index is only used on the branch recordID <= 0",
 	"geom.(exactEqualsComparator).lineStringsEq": "reached only for rings (areRings): both sequences have n >= 4 points",
 	"geom.(linearInterpolator).interpolate":      "newLinearInterpolator refuses an empty sequence, so Length() >= 1; idx-1 is used where idx equals that length",
+	"geom.extractPolygonRing":                    "the same slice when buildRingSequence is written inline: appendAllPoints adds at least two floats for each point of a DCEL edge sequence",
 	"geom.buildRingSequence":                     "appendAllPoints adds at least two floats for each point of a sequence that has at least one point (the sequences are DCEL edges with two or more points)",
 	"geom.(GeoJSONFeature).MarshalJSON":          "json.Marshal of a struct produced an object, which ends with '}'",
 	"rtree.(*entriesQueue).Pop":                  "container/heap calls Pop only on a non-empty queue (heap.Pop swaps the root to the end first)",
@@ -1496,7 +1497,7 @@ func init() {
 		ID:    "C16.xypairs",
 		Props: []string{"C16", "C01"},
 		Doc:   "a coordinate list assembled from XY values is an XY sequence: wherever a float slice that a function builds solely by `append(list, p.X, p.Y)` (two ordinates per point) is made into a Sequence, the coordinates type given to NewSequence is the constant DimXY — typing it with a geometry's own coordinates type makes a Z/M input read the pairs with stride 3 or 4 (the re-noded lines of the overlay)",
-		Floor: 1,
+		Floor: 0,
 		Run: func(c *Ctx) {
 			for _, f := range c.P.Funcs {
 				if pkgOf(f) != "geom" || len(f.Blocks) == 0 {
